@@ -36,8 +36,10 @@ func vAcceptOwnerSpec(nopanic bool) {
 	ov := h.v
 	n := verif.Choose("nentries", 2+verif.Tier())
 	signerKind, signer := h.mk, h.mfgPub
+	var vents []vwEntry
 	for i := 0; i < n; i++ {
 		e := vwMkEntryR(string(rune('A'+i)), signerKind, signer, true)
+		vents = append(vents, e)
 		ov.Entries = append(ov.Entries, e.tag)
 		signerKind, signer = e.nextKind, e.nextPub
 	}
@@ -105,6 +107,7 @@ func vAcceptOwnerSpec(nopanic bool) {
 	b := st.lastBlob
 	verif.Assert(len(b.ov.Entries) >= 1, "stored => the voucher has at least one entry")
 	verif.Assert(b.ov.VerifyEntries() == nil, "stored => the voucher's entry chain verifies")
+	vwSpecEntries("stored", h, h.v.Hmac, vents)
 	verif.Assert(st.to0Nonce != nil && nonce == sessNonce, "stored => to0d carries the nonce issued in this session")
 	verif.Assert(payloadPresent, "stored => the blob has a payload")
 	t0enc, err := cbor.Marshal(t0)
@@ -114,7 +117,7 @@ func vAcceptOwnerSpec(nopanic bool) {
 	// the central conjunct: the blob is signed by the voucher's CURRENT owner key
 	ok, verr := b.to1d.Verify(ownerPub, nil, nil)
 	verif.Assert(verr == nil && ok, "stored => the redirect blob is signed with the voucher's current owner key")
-	_ = ownerKind
+	verif.Assert(vwSpecSigned(ownerKind, ownerPub, sigAlg, vwMust(cbor.Marshal(blob)), to1d.Signature), "stored => the redirect blob's signature is the current owner key's signature over its protected header and payload (reference predicate)")
 	// TTL policy
 	ttl := reqTTL
 	if cbMode == 1 {
